@@ -1,6 +1,7 @@
 package gen
 
 import (
+	"encoding/json"
 	"math"
 	"strings"
 	"time"
@@ -28,6 +29,24 @@ type DataStruct struct {
 	Nested  *DataStruct
 	M       map[string]any
 	Any     any
+}
+
+// Named types: their reflect.Kind is that of the underlying type, their dynamic type is not.
+type (
+	NTitle string
+	NInt   int
+	NFloat float64
+	NBool  bool
+	NStrs  []string
+	NDict  map[string]any
+	NKMap  map[NTitle]int
+)
+
+// EmbedInner / EmbedOuter: Count is promoted from an embedded pointer that may be nil.
+type EmbedInner struct{ Count int }
+type EmbedOuter struct {
+	*EmbedInner
+	Name string
 }
 
 // LongString is the "very long string" of the universe (8 KiB).
@@ -135,6 +154,12 @@ func Universe() []UVal {
 		{Name: "dropnil", Go: DropV{nil}},
 		{Name: "dropdrop", Go: DropV{&DropP{"inner"}}},
 		{Name: "adrops", Go: []any{DropV{2}, DropV{1}, &DropP{"s"}, DropV{nil}}, Small: true},
+		{Name: "ntitle", Go: NTitle("héllo wörld"), Small: true}, {Name: "jsonnum", Go: json.Number("12")}, {Name: "nint", Go: NInt(3)}, {Name: "nfloat", Go: NFloat(2.5)},
+		{Name: "nbool", Go: NBool(true)}, {Name: "nstrs", Go: NStrs{"b", "a"}}, {Name: "ndict", Go: NDict{"k": 1, "size": 2}}, {Name: "nkmap", Go: NKMap{"k": 1, "a": 2}, Small: true},
+		{Name: "nkmaps", Go: []NKMap{{"k": 2}, {"k": 1}, {}}}, {Name: "anynkmaps", Go: []any{NKMap{"k": 2}, map[string]any{"k": 1}, NDict{"k": 0}}}, {Name: "ntitles", Go: []NTitle{"b", "a"}},
+		{Name: "embednil", Go: EmbedOuter{Name: "outer"}, Small: true}, {Name: "embednilptr", Go: &EmbedOuter{}}, {Name: "embedset", Go: EmbedOuter{EmbedInner: &EmbedInner{Count: 4}}},
+		{Name: "mapslicekeys", Go: yaml.MapSlice{{Key: []int{3, 1, 2}, Value: "slicekey"}, {Key: map[string]any{"a": 1}, Value: 2}, {Key: "a", Value: 3}, {Key: []string{"b", "a"}, Value: 4}}, Small: true},
+		{Name: "uintptr", Go: uintptr(4)},
 		{Name: "fn", Go: func() any { return 1 }},
 		{Name: "chan", Go: make(chan int)},
 		{Name: "complex", Go: complex(1, 2)},
